@@ -337,12 +337,17 @@ func runC20(c *core.Ctx) {
 			return core.Exec{Sched: s, Outcome: fmt.Sprintf("event-level %s keys=%s events=%d", cs.Pair, cs.Keys, o.events), Viol: c20Judge(ev, o)}
 		})
 		// schedule level on the auto network (two requests only: runs are long)
-		if cs.N == 2 && (c.Thorough() || (cs.Workers[0] == cs.Workers[1] && (cs.Pair == "same" || cs.Pair == "diamond"))) {
+		if cs.N == 2 && (c.Thorough() || (cs.Workers[0] == cs.Workers[1] && (cs.Pair == "same" || cs.Pair == "diamond") && cs.Keys != "different")) {
 			c.Explore(core.ExploreOpts{MaxBound: sb, Cost: core.Deviation, Label: cs, NoShard: true, MaxExecs: 20000}, func(cfg vsched.Config) core.Exec {
 				o, s := c20Run(cfg, cs, -1)
 				return core.Exec{Sched: s, Outcome: fmt.Sprintf("schedule-level %s keys=%s", cs.Pair, cs.Keys), Viol: c20Judge(cs, o)}
 			})
 		}
+		// one slow thread: every thread of the default execution demoted in turn (auto network)
+		c.ExploreSlow(cs, vsched.Config{}, []int{0}, func(cfg vsched.Config) core.Exec {
+			o, s := c20Run(cfg, cs, -1)
+			return core.Exec{Sched: s, Outcome: fmt.Sprintf("%s keys=%s", cs.Pair, cs.Keys), Viol: c20Judge(cs, o)}
+		})
 		if i%11 == 0 {
 			c.Sample(cs.String())
 		}
@@ -362,7 +367,7 @@ func init() {
 			if err := json.Unmarshal(raw, &w); err != nil {
 				return err.Error()
 			}
-			o, _ := c20Run(vsched.Config{Prefix: w.Prefix}, w.Label, -1)
+			o, _ := c20Run(core.CfgFromReplay(raw), w.Label, -1)
 			if v := c20Judge(w.Label, o); v != nil {
 				return v.Signature + ": " + v.What
 			}
